@@ -163,7 +163,8 @@ pub fn try_build_block(
     })
 }
 
-/// Find a nonce satisfying the PoW engine (no-op for Dummy).
+/// Find a nonce satisfying the PoW engine (no-op for Dummy). Only the nonce is touched (no
+/// builder that would re-derive or assert other header fields).
 pub fn seal(consensus: &ckb_chain_spec::consensus::Consensus, block: BlockView) -> BlockView {
     let engine = consensus.pow_engine();
     if engine.verify(&block.data().header()) {
@@ -172,9 +173,9 @@ pub fn seal(consensus: &ckb_chain_spec::consensus::Consensus, block: BlockView) 
     let mut nonce: u128 = block.nonce();
     loop {
         nonce = nonce.wrapping_add(1);
-        let b = block.as_advanced_builder().nonce(nonce).build();
-        if engine.verify(&b.data().header()) {
-            return b;
+        let header = block.data().header().as_builder().nonce(nonce).build();
+        if engine.verify(&header) {
+            return replace_header(&block, header);
         }
     }
 }
@@ -245,4 +246,26 @@ pub fn occupied(lock: &Script, type_: &Option<Script>, data_len: usize) -> u64 {
     out.occupied_capacity(Capacity::bytes(data_len).unwrap())
         .unwrap()
         .as_u64()
+}
+
+/// Replace the packed header of a block keeping the body (incl. the extension) byte for byte and
+/// WITHOUT recomputing any root / hash field.
+pub fn replace_header(block: &BlockView, header: packed::Header) -> BlockView {
+    let data = block.data();
+    match block.extension() {
+        Some(ext) => packed::BlockV1::new_builder()
+            .header(header)
+            .uncles(data.uncles())
+            .transactions(data.transactions())
+            .proposals(data.proposals())
+            .extension(ext)
+            .build()
+            .as_v0()
+            .into_view_without_reset_header(),
+        None => data
+            .as_builder()
+            .header(header)
+            .build()
+            .into_view_without_reset_header(),
+    }
 }
